@@ -162,7 +162,7 @@ package simpledb
 //@   exit [oldest-flag-truthful] r0.includesOldestTable <==> (len(s.allSSTableReaders) > 0 && selectedForCompaction[0])
 //@   // the correspondence "returned paths = base paths of the selected tables, in table order" needs witnesses for an
 //@   // existential per element; it is checked by the bounded driver candidate_tables (all selections over <= 6 tables)
-//@   modifies nothing
+//@   modifies lkR(s.managerLock)
 //@   loop 0
 //@     invariant 0 <= i && i <= len(s.allSSTableReaders) && len(selectedForCompaction) == i
 //@     invariant isnil(selectedForCompaction) || fresh(selectedForCompaction)
@@ -306,6 +306,7 @@ package simpledb
 
 //@ func executeFlush
 //@   props C02 C13 C11 C01
+//@   requires [C18:manager-lock-free-at-entry] !lkW(db.sstableManager.managerLock)
 //@   requires db != nil && db.sstableManager != nil && db.sstableManager.managerLock != nil && flushAction.memStore != nil && deref(flushAction.memStore) != nil
 //@   call 0 of os.Rename: assert [C02:table-gets-its-name-only-when-complete] called(MemStoreI.FlushWithTombstones, 0) &&
 //@        callres(MemStoreI.FlushWithTombstones, 0, 0) == nil && arg0 == tmpPath && arg1 == writePath
@@ -327,6 +328,7 @@ package simpledb
 //@   modifies db.wal, db.memStore, db.currentGeneration, db.sstableManager.allSSTableReaders, db.sstableManager.currentReader,
 //@            db.sstableManager.allSSTableReaders[*], mst(*), mvl(*), fresh(*)
 //@   props C10 C02 C13 C01
+//@   requires [C18:manager-lock-free-at-entry] !lkW(db.sstableManager.managerLock)
 //@   replay crash_points
 //@   bounded crash_points process kill at file-system call boundaries (strace signal injection at the N-th write / pwrite64 / openat / rename* / unlink* / mkdir* / rmdir / ftruncate / fsync / fdatasync of a thread): a 16-operation workload (puts, overwrites, deletes, 2 compaction cycles, memstore rotations) x synchronous and asynchronous log x {real background flusher, sequential schedule on one locked thread = every call of the process}; every 9th call (quick) / every call (thorough); every 4th (5th) crash image additionally with the recovery killed once (twice); recovery killed at each unlink while it clears a log directory with three unflushed files; after each: Open succeeds and the reads equal the acknowledged prefix
 //@   requires db.memStore != nil && db.memStore.writeStore != nil && db.sstableManager != nil && db.sstableManager.managerLock != nil
@@ -387,6 +389,7 @@ package simpledb
 //@   props C01 C10
 //@   replay crash_points
 //@   requires db.sstableManager != nil && db.sstableManager.managerLock != nil
+//@   requires [C18:manager-lock-free-at-entry] !lkW(db.sstableManager.managerLock)
 //@   call 0 of SSTableManager.addReader: assert [C01,C10:loaded-table-joins-the-stack] called(sstables.NewSSTableReader, 0) && callres(sstables.NewSSTableReader, 0, 1) == nil &&
 //@        arg0 == callres(sstables.NewSSTableReader, 0, 0)
 //@   call 0 of sstables.NewSSTableReader: assert [C01,C10:tables-loaded-in-name-order] called(sort.Strings, 0) && 0 < iter
@@ -395,7 +398,7 @@ package simpledb
 
 //@ func (*DB).Open
 //@   props C10 C19 C02 C18
-//@   requires [C18:lock-free-at-entry] !lkW(db.rwLock)
+//@   requires [C18:lock-free-at-entry] !lkW(db.rwLock) && !lkW(db.sstableManager.managerLock) && db.rwLock != db.sstableManager.managerLock
 //@   ensures [C18:lock-released] !lkW(db.rwLock)
 //@   requires db.rwLock != nil && db.memStore != nil && db.memStore.writeStore != nil && db.sstableManager != nil && db.sstableManager.managerLock != nil
 //@   exit [C10:recovery-steps-in-order] called(DB.reconstructSSTables, 0) ==> called(DB.repairCompactions, 0) && callres(DB.repairCompactions, 0, 0) == nil
